@@ -129,9 +129,7 @@ static void part_apropos(int max_root, int max_sub)
 {
     if(!replay_part("B|")) return;
     struct Kind { const char *name; bool subtree; };
-    static const Kind root_kinds[] = {{"a", false}, {"ab:i", false}, {"b::f", false}, {"c/d:", false}, {"e#2:i", false}, {"s/", true}, {"t/u/", true}, {"v#2/\0", true}, {"a/", true}};
-    // ("v#2/" carries a second NUL: walk_ports looks one byte behind the terminator of a sub-tree name that ends in "#N/"
-    //  - ports.cpp:1091, strchr(read_head + 1, '#') - which is C09's business, not this check's)
+    static const Kind root_kinds[] = {{"a", false}, {"ab:i", false}, {"b::f", false}, {"c/d:", false}, {"e#2:i", false}, {"s/", true}, {"t/u/", true}, {"v#2/", true}, {"a/", true}};
     static const Kind sub_kinds[] = {{"x", false}, {"xy:i", false}, {"y::i:f", false}, {"z/", true}};
     const int NR = 9, NS = 4;
     std::vector<std::vector<int>> roots = selections(NR, max_root), subs = selections(NS, max_sub);
